@@ -26,6 +26,10 @@ import (
 
 type deviation struct {
 	like, delimPaging, nullLast, segCP bool
+	// likePlain: variant of the LIKE reading in which a key that only LIKE-matches
+	// is never rolled up (what pithos does once determineCommonPrefix requires a
+	// byte-exact prefix, i.e. with the proposed fix of KF-C06-4 but not of KF-C06-1)
+	likePlain bool
 }
 
 func (d deviation) ids() []string {
@@ -91,7 +95,7 @@ func pithosRow(api, prefix, delim string, it item) row {
 // classify decides how one entry is read: by the oracle rule when the key
 // byte-starts with the prefix (unless the segment reading is switched on), by
 // the LIKE reading otherwise (if enabled).
-func classify(api string, like, segCP bool, prefix, delim string, it item) (row, bool) {
+func classify(api string, like, likePlain, segCP bool, prefix, delim string, it item) (row, bool) {
 	if strings.HasPrefix(it.Key, prefix) {
 		if segCP {
 			return pithosRow(api, prefix, delim, it), true
@@ -107,13 +111,16 @@ func classify(api string, like, segCP bool, prefix, delim string, it item) (row,
 	if !like || !likePrefix(prefix, it.Key) {
 		return row{}, false
 	}
+	if likePlain {
+		return row{it: it, obj: delim == "" || !strings.Contains(it.Key, delim)}, true
+	}
 	return pithosRow(api, prefix, delim, it), true
 }
 
-func rowsOf(api string, like, segCP bool, prefix, delim string, entries []item) []row {
+func rowsOf(api string, like, likePlain, segCP bool, prefix, delim string, entries []item) []row {
 	var out []row
 	for _, e := range entries {
-		if r, ok := classify(api, like, segCP, prefix, delim, e); ok {
+		if r, ok := classify(api, like, likePlain, segCP, prefix, delim, e); ok {
 			out = append(out, r)
 		}
 	}
@@ -168,7 +175,7 @@ func predict(q Query, prefix string, entries []item, d deviation, pageCap int) p
 	if d.nullLast {
 		entries = nullLastOrder(entries)
 	}
-	rows := rowsOf(q.API, d.like, d.segCP, prefix, q.Delim, entries)
+	rows := rowsOf(q.API, d.like, d.likePlain, d.segCP, prefix, q.Delim, entries)
 	if !d.delimPaging {
 		return prediction{lst: flatten(rows, q.Start)}
 	}
